@@ -147,9 +147,10 @@ CHECKS = {'C10': {'level': 'other',
                  'layout-class shapes with boundary-biased values at versions 5..10, in the main routine and inside subroutines; X.set(another ABI value) for all ordered pairs of 14 types; every '
                  'route by which a dynamic value gets its uint16 length prefix at lengths around 255/256 ... 4000 (bounded). Proved for every supported width and every value: uint_set accepts a '
                  'Python int iff it lies in [0, 2^N) (using the proved contract of Int) and then stores exactly that constant; for an expression value of width < 64 the store is followed by '
-                 'Assert(load < Int(2^N)), for 64 bits by nothing; uint_encode is the last N/8 bytes of itob(value) (setbyte into one zero byte for N = 8); Bool.set stores Int(1/0) for a Python bool '
-                 'and Not(Not(e)) for an expression; Bool.encode is setbit(0x00, 0, value); _encode_bool_sequence denotes, for every number n of bools, ceil(n/8) bytes whose bit j is value j (later '
-                 'bits 0), every setbit index inside the string. The same cases remain in the bounded stand-in end to end.',
+                 'Assert(load < Int(2^N)), for 64 bits by nothing; uint_encode is the last N/8 bytes of itob(value) (setbyte into one zero byte for N = 8); Uint.set / Uint.encode call the helpers '
+                 "with the value's own width and variable (linking contracts); Bool.set stores Int(1/0) for a Python bool and Not(Not(e)) for an expression; Bool.encode is setbit(0x00, 0, value); "
+                 '_encode_bool_sequence denotes, for every number n of bools, ceil(n/8) bytes whose bit j is value j (later bits 0), every setbit index inside the string. The same cases remain in '
+                 'the bounded stand-in end to end.',
          'note': "trusted: algosdk.abi, the position-function spec, TypeSpec interface contracts for element types. The Expr layer of _encode_tuple's second loop is bounded only; the scalar codec "
                  "contracts summarise the Expr constructors (Int, Seq, Assert, Itob, Suffix, SetByte, <) as constructor terms whose AVM meaning is the fragment catalogue's (C01). "
                  '_encode_bool_sequence assumes len(values) <= sys.maxsize and takes Bytes / SetBit / Int by their AVM meaning (spec functions bitsOf / byteLenOf).',
@@ -162,11 +163,11 @@ CHECKS = {'C10': {'level': 'other',
          'text': 'Proved for every sequence of element types and every index: _index_tuple raises ValueError exactly for an out-of-range index and TypeError exactly for a mismatching output type, '
                  "and otherwise returns decode_bit at the element's ARC-4 bit position (bool), a decode between the uint16 head at the element's head offset and the head of the first following "
                  'dynamic element (dynamic; open-ended iff none follows), or a decode of the window [offset, offset + static length) (static; the abbreviated forms only where they denote that '
-                 'window). Bool.decode is proved to store getbit(encoded, 8 * start) (start = 0 when absent); uint_decode is proved to store the big-endian read of exactly N/8 bytes (getbyte / '
-                 'extract_uint16/32/64) at the given start index, at 0 when none is given, and btoi of the whole string only for 64 bits without any index. Bounded: for generated type shapes and '
-                 'values every tuple / array position (constant and computed index), get(), length() and the decode-encode round trip are compared with the reference encoding of the component; '
-                 'out-of-range indices must fail. Three classes of non-failing out-of-range array accesses are known findings. Bounded additions: named-tuple fields read by name while several '
-                 'named-tuple types that reuse field names at other positions are alive.',
+                 "window). Uint.decode hands its own width, variable and the caller's indices to uint_decode (linking contract); Bool.decode is proved to store getbit(encoded, 8 * start) (start = 0 "
+                 'when absent); uint_decode is proved to store the big-endian read of exactly N/8 bytes (getbyte / extract_uint16/32/64) at the given start index, at 0 when none is given, and btoi '
+                 'of the whole string only for 64 bits without any index. Bounded: for generated type shapes and values every tuple / array position (constant and computed index), get(), length() '
+                 'and the decode-encode round trip are compared with the reference encoding of the component; out-of-range indices must fail. Three classes of non-failing out-of-range array accesses '
+                 'are known findings. Bounded additions: named-tuple fields read by name while several named-tuple types that reuse field names at other positions are alive.',
          'note': 'array element access (ArrayElement, computed indices), the byte-string scalar decoders and the Expr constructors are bounded only; the contract treats '
                  'decode()/decode_bit()/ExtractUint16/Int as pure record constructors.',
          'design_ref': 'DESIGN.md 5/C07, 10.3'},
